@@ -37,6 +37,17 @@ REQUIRED = [
     "Pixman.Props.C11.transformPoint_reduced_sharp",
     "Pixman.Props.C11.transformPoint_within_one",
     "Pixman.Props.C11.transformPoint_w_zero",
+    "Pixman.Props.C11.withinEpsilon_spec",
+    "Pixman.Props.C11.withinEpsilon_int32min",
+    "Pixman.Props.C11.isZero_iff",
+    "Pixman.Props.C11.isOne_iff",
+    "Pixman.Props.C11.isSame_iff",
+    "Pixman.Props.C11.isInt_iff",
+    "Pixman.Props.C11.isInverse_iff",
+    "Pixman.Props.C11.isInverse_spec",
+    "Pixman.Props.C11.isIdentity_spec",
+    "Pixman.Props.C11.isScale_spec",
+    "Pixman.Props.C11.isIntTranslate_spec",
     "Pixman.Props.C11.applyPair_spec",
     "Pixman.Props.C11.applyPair_exact",
     "Pixman.Props.C11.translate_spec",
@@ -48,14 +59,17 @@ REQUIRED = [
 # the floating point entry points over exact rationals (Model/MatrixQ.lean); every one is `_partial`: IEEE rounding is not modelled
 REQUIRED_FLOAT = ["Pixman.Props.C11Float." + t for t in (
     "det_eq_detSpec_partial", "fInvert_none_iff_partial", "fInvert_inverse_partial", "fInvert_unique_partial",
-    "fMultiply_eq_mulSpec_partial", "entryToFixed_none_iff_partial", "entryToFixed_some_partial",
-    "toFixed_isSome_iff_partial", "toFixed_some_partial", "detSpec_fromFixed_partial", "detSpec_fromFixed_zero_iff_partial",
+    "fMultiply_eq_mulSpec_partial", "entryToFixed_none_iff", "entryToFixed_some",
+    "toFixed_isSome_iff", "toFixed_some", "detSpec_fromFixed_partial", "detSpec_fromFixed_zero_iff_partial",
     "invert_singular_partial", "invert_some_partial", "invert_none_iff_partial",
     "fPoint3d_spec_partial", "fPoint_none_iff_partial", "fPoint_some_partial", "fBounds_contains_corners_partial",
+    "entryFromDouble_finite", "from_to_roundtrip", "from_to_refused", "toFixed_fromFixed", "to_from_within",
+    "pair_stays_inverse_partial", "fScale_spec_partial", "fTranslate_spec_partial", "fRotate_spec_partial",
 )]
 
-FLOAT_OPS = ("f_from", "f_to", "f_invert", "f_point", "f_bounds")   # oracle only; "invert" is also mirrored bit-exactly on Lean Float
-FLOAT_RATIONAL = ("f_invert", "f_point", "f_bounds")   # rational model compared literally with the harness's exact arithmetic; library judged by the oracle
+FLOAT_OPS = ("f_from", "f_to", "f_invert", "f_point", "f_bounds", "f_mul", "f_scale", "f_rotate", "f_translate")   # oracle only; "invert" is also mirrored bit-exactly on Lean Float
+FLOAT_LITERAL = ("f_from", "f_to")   # exact binary64 model, literal equality with the library
+FLOAT_RATIONAL = ("f_invert", "f_point", "f_bounds", "f_mul", "f_scale", "f_rotate", "f_translate")   # rational model compared literally with the harness's exact arithmetic; library judged by the oracle
 MODELLED_NONTRIVIAL = ("point", "p31", "point3d", "p313d", "p31a", "mul", "scale", "rotate", "translate", "bounds")
 WB_SYMS = ["wb_udiv", "wb_sdiv", "wb_to128", "wb_finv"]
 
@@ -149,6 +163,21 @@ def run_streams(ctx, nper, nstreams):
                         nontrivial.add(hash("q" + req))
                 compared += 1
                 continue
+            if op in FLOAT_LITERAL:
+                # fixed/float conversions: the binary64 model (Model/Binary64.lean + MatrixQ.entryFromDouble / fixedToDoubleBits) must equal the library LITERALLY
+                a = li[k].strip()
+                a = a.partition(" | ")[2] if op == "f_to" else a
+                m = lm[k].strip()
+                compared += 1
+                if m == "UNDEF":
+                    stats["f_from: NaN reached the cast (not compared)"] += 1
+                elif a != m:
+                    findings.append(("disagree", op, req, a, m, f"binary64 model and implementation differ [{op}, literal]"))
+                else:
+                    stats[f"{op}: binary64 model = library (literal)"] += 1
+                    if a.startswith("1 ") or op == "f_to":
+                        nontrivial.add(hash("q" + req))
+                continue
             if op in FLOAT_OPS:
                 continue
             compared += 1
@@ -208,7 +237,7 @@ def run_streams(ctx, nper, nstreams):
     ctx.extra["observations(counted, not judged)"] = observations
     for o in observations[:2]:
         log(f"OBSERVATION (not judged): {o['what']}: {o['request']}  =>  {o['implementation']}")
-    ctx.extra["float_family_requests(oracle only: f_from, f_to)"] = sum(ops_hist[o] for o in FLOAT_OPS if o not in FLOAT_RATIONAL)
+    ctx.extra["float_family_requests(binary64 model = library, literal: f_from, f_to)"] = sum(ops_hist[o] for o in FLOAT_LITERAL)
     ctx.extra["float_family_requests(rational model = exact oracle; library within rounding bound)"] = sum(ops_hist[o] for o in FLOAT_RATIONAL + ("invert",))
     return findings
 
@@ -257,7 +286,12 @@ def run(ctx):
         "singular 16.16 matrices with large, nearly proportional rows.  NaN/inf inputs are not generated.  pixman_f_transform_invert / point / point_3d / bounds on 16.16 matrices seen as doubles: the rational model must "
         "reproduce literally the harness's exact verdict (reduced fractions / integer box); the library is judged against the exact values by the oracle (f_invert: the same "
         "bound in relative form; f_point: 16 ulp of the term magnitudes when w is free of cancellation; f_bounds: floor/ceil of the exact corner, one edge unit of slack only when "
-        "the quotient lies within 2^-51 relative of an integer, corners up to 30000).  f_from / f_to: long double oracle only (entryToFixed theorems for the algorithm)",
+        "the quotient lies within 2^-51 relative of an integer, corners up to 30000).  f_mul / f_scale / f_rotate / f_translate (operands = 16.16 values as exact doubles): rational model = exact fractions literally, library within 4u * sum |terms| of each entry.  "
+        "f_from / f_to: the conversions on binary64 bit patterns are modelled EXACTLY (Model/Binary64.lean: value of a double; encoding of f/65536) and must equal the library literally, "
+        "directed at neighbours of ties, of the range limits and subnormals.  Since /repo 50296f6 the double->16.16 entry conversion has no inexact operation on an in-range double (scaling by 2^16, floor, "
+        "an exactly decided comparison of the fraction with 0.5), so MatrixQ.entryToFixed on the exact value IS the library's function and its theorems (nearest, ties up; round trips) are not `_partial`.  "
+        "Predicates is_identity/is_scale/is_int_translate/is_inverse: model = library literally + two-unit-tolerance spec oracle; entries equal to INT32_MIN (negation wraps: undefined in C, "
+        "the compiled code treats INT32_MIN as 'about zero') are modelled as the wrap and excluded from the spec oracle",
         "signed overflow that is undefined behaviour in C (negation of INT32_MIN inside the void pixman_transform_init_rotate, within_epsilon differences) is modelled as the "
         "two's complement wrap the compiled library shows",
         "int64 sums inside pixman_transform_point_31_16*/multiply are modelled unbounded; Props.C11.tmp_in_int64/mulEntry_in_int64 prove they fit",
@@ -289,6 +323,10 @@ def replay(ctx, path):
             findings.append(("disagree", op, req, aq, mq, "rational model (Model/MatrixQ.lean) and the exact-arithmetic oracle differ [invert, rational]"))
         if m == "UNDEF":
             m = a
+    if op in FLOAT_LITERAL:
+        al = a.partition(" | ")[2] if op == "f_to" else a
+        if m != "UNDEF" and al != m:
+            findings.append(("disagree", op, req, al, m, f"binary64 model and implementation differ [{op}, literal]"))
     if op in FLOAT_RATIONAL:
         aq = a.partition(" | ")[2]
         if aq != m:
